@@ -112,7 +112,10 @@ def minv(m):
         b = list(idx[:nb])
         i, j = idx[nb], idx[nb + 1]
         vi, vj = T.bounded_var(n, "mi"), T.bounded_var(n, "mj")
-        body = P(m.fn(*(b + [vi, vj])))
+        if P(n).as_int() == 1:
+            body = P(m.fn(*(b + [ZERO, ZERO])))
+        else:
+            body = P(m.fn(*(b + [vi, vj])))
         lam = T.close_raw("lam", vi, None, T.close_raw("lam", vj, None, body))
         return T.app("minv", n, lam, i, j)
     return Arr(m.shape, fn, "real", m.kind)
@@ -237,15 +240,15 @@ class NP:
         used("np.full")
         return self._mk(shape, to_scalar(fill_value), like)
 
-    def zeros_like(self, a, **kw):
+    def zeros_like(self, a, dtype=None, **kw):
         used("np.zeros_like")
         a = lift(a)
-        return A.const_arr(a.shape, 0, a.kind)
+        return A.const_arr(a.shape, 0, a.kind, dtype=a.dtype if (dtype is None and a.dtype == "int") else "real")
 
-    def ones_like(self, a, **kw):
+    def ones_like(self, a, dtype=None, **kw):
         used("np.ones_like")
         a = lift(a)
-        return A.const_arr(a.shape, 1, a.kind)
+        return A.const_arr(a.shape, 1, a.kind, dtype=a.dtype if (dtype is None and a.dtype == "int") else "real")
 
     def eye(self, n, m=None, **kw):
         used("np.eye")
@@ -269,6 +272,8 @@ class NP:
     def atleast_2d(self, x):
         used("np.atleast_2d")
         x = lift(x)
+        if isinstance(x, Arr) and x.ndim == 0:
+            x = x.fn()
         if is_scalar(x):
             v = P(x)
             return Arr((ONE, ONE), lambda i, j: v)
@@ -518,6 +523,13 @@ class NP:
     def cov(self, x, **kw):
         used("np.cov")
         x = lift(x)  # rows = variables, columns = observations
+        if A.is_one(x.shape[0]):
+            # a single variable: NumPy returns a 0-d array
+            n = x.shape[1]
+            m = x.mean(axis=1, keepdims=True)
+            xc = x - m
+            T.side("nonzero", n - 1, "covariance of a single observation")
+            return Arr((), lambda: P((A.matmul(xc, xc.T) / (n - 1)).fn(ZERO, ZERO)))
         n = x.shape[1]
         m = x.mean(axis=1, keepdims=True)
         xc = x - m
